@@ -189,9 +189,9 @@ def fork_while_locked(run, rng, n):
                 pids.append(pid)
                 w.actor(name)
                 if how == "commit":
-                    wr.commit()
+                    w.guarded(name, "commit", wr.commit)        # (an exception is a violation, not a driver failure)
                 elif how == "cancel":
-                    wr.cancel()
+                    w.guarded(name, "cancel", wr.cancel)
                     w.log.events = [e for e in w.log.events
                                     if not (e["ev"] == "api" and e.get("key") == "fcancel")] if False else w.log.events
                 else:
